@@ -161,10 +161,10 @@ func txQueue(tptx gtypes.Tx, apptxQ [][]appTx, i, j int) error {
 		}
 	}
 
-	atomic.StoreInt32(&cur.status, appTxStatusInit)
 	if j == 0 {
 		apptxQ[i][j].oribys = tptx
 	}
+	atomic.StoreInt32(&cur.status, appTxStatusInit)
 	j++
 	return nil
 }
@@ -221,8 +221,9 @@ func tryValidate(signer etypes.Signer, tx *appTx) error {
 
 	_, err := etypes.Sender(signer, tx.tx)
 	if err != nil {
-		atomic.StoreInt32(&tx.status, appTxStatusFailed)
+		// publish the error before the status: the executor reads it as soon as it sees Failed
 		tx.err = err
+		atomic.StoreInt32(&tx.status, appTxStatusFailed)
 		return err
 	}
 
